@@ -319,14 +319,20 @@ func authClaimPorts(start int) (*authPortBlock, error) {
 		lock := filepath.Join(authPortDir, fmt.Sprintf("blk-%03d.lock", k))
 		f, err := os.OpenFile(lock, os.O_CREATE|os.O_EXCL|os.O_WRONLY, 0o666)
 		if err != nil {
-			// stale?
-			if b, rerr := os.ReadFile(lock); rerr == nil {
-				pid, _ := strconv.Atoi(strings.TrimSpace(string(b)))
-				if st, serr := os.Stat(lock); serr == nil && !authPidAlive(pid) && time.Since(st.ModTime()) > 2*time.Second {
-					os.Remove(lock)
-				}
+			// stale? (owner gone, e.g. a killed worker): reclaim it
+			b, rerr := os.ReadFile(lock)
+			if rerr != nil {
+				continue
 			}
-			continue
+			pid, _ := strconv.Atoi(strings.TrimSpace(string(b)))
+			st, serr := os.Stat(lock)
+			if serr != nil || authPidAlive(pid) || time.Since(st.ModTime()) < 2*time.Second {
+				continue
+			}
+			os.Remove(lock)
+			if f, err = os.OpenFile(lock, os.O_CREATE|os.O_EXCL|os.O_WRONLY, 0o666); err != nil {
+				continue
+			}
 		}
 		fmt.Fprintf(f, "%d\n", os.Getpid())
 		f.Close()
